@@ -370,8 +370,6 @@ def judge_step(rec):
         return None
     if rec["op"] == "del":
         v = c04.judge_record(rec)
-        if v is not None and (c04._f15(None, None) if False else (not rec["guard"])):
-            v = None        # C04's known findings are C04's business
         if v is not None:
             return "delete step: " + v
     else:
